@@ -204,10 +204,10 @@ func genRangeFor(t *rapid.T, qc *qctx, offers []string) Range {
 	return r
 }
 
-// genEmptyElements switches on empty list elements ("a/b,,c/d", ",c/d") in the structured generators. It is off:
-// the current ParseAccept drops the rest of a header line at an empty element (see the report of this package's
-// author); RFC 7230 section 7 obliges recipients to ignore empty elements, but DESIGN.md does not list the class.
-const genEmptyElements = false
+// genEmptyElements switches on empty list elements ("a/b,,c/d", ",c/d") in the structured generators: RFC 7230
+// section 7 obliges recipients to ignore them. ParseAccept used to drop the rest of the header line there
+// (finding F38, repaired in /repo); the class is generated since.
+const genEmptyElements = true
 
 // GenRanges is exported for C08.
 func GenRanges(t *rapid.T, offers []string, max int) []Range { return genRanges(t, offers, max) }
